@@ -30,6 +30,7 @@ from . import common as C
 
 sys.path.insert(0, os.path.join(C.ROOT, "gen"))
 
+TAG = "r%d_" % os.getpid()  # scratch files of this run (build/C06/), removed at the end
 PRIV_GABOR = ("_stds", "_centers_ang", "_scale_l2_norm")
 PRIV_GT = ("_alphas", "_cs", "_xis", "_offsets", "_order")
 
@@ -323,6 +324,24 @@ REQ_R = ("From Coq Require Import Reals ZArith List.\nFrom Interval Require Impo
 
 
 def run(ctx):
+    try:
+        return _run(ctx)
+    finally:
+        cleanup()
+
+
+def cleanup():
+    d = os.path.join(C.BUILD, "C06")
+    if os.path.isdir(d):
+        for f in os.listdir(d):
+            if f.startswith(TAG) or f.startswith("." + TAG):
+                try:
+                    os.remove(os.path.join(d, f))
+                except OSError:
+                    pass
+
+
+def _run(ctx):
     C.ensure_impl_path()
     import importlib
 
@@ -424,7 +443,7 @@ def run(ctx):
                 l, rr, rate = tri_inputs(c)
                 items.append("tri_case %s %s %d %s %s %s" % (
                     cb(c["kind"] == "fbank"), cb(c["desc"]["analytic"]), c["w"], qz(l), qz(rr), qz(rate)))
-            files.append(("tri_%d" % s0, "Eval vm_compute in [\n " + ";\n ".join(items) + "].\n"))
+            files.append((TAG + "tri_%d" % s0, "Eval vm_compute in [\n " + ";\n ".join(items) + "].\n"))
         res = C.coq_eval_many(ctx, files, REQ_Z)
         for (name, _), (ans, log), s0 in zip(files, res, range(0, len(tri_cases), shard)):
             if ans is None or len(ans) != 1:
@@ -462,7 +481,7 @@ def run(ctx):
                 xl = Fraction(float(c["w"] * lo / rate))
                 xr = Fraction(float(c["w"] * hi / rate))
                 items.append("tri_case_q %s %s %d %s %s" % (cb(c["kind"] == "fbank"), cb(c["desc"]["analytic"]), c["w"], qz(xl), qz(xr)))
-            ans, log = C.coq_eval(ctx, "tri_retry", "Eval vm_compute in [\n " + ";\n ".join(items) + "].\n", REQ_Z)
+            ans, log = C.coq_eval(ctx, TAG + "tri_retry", "Eval vm_compute in [\n " + ";\n ".join(items) + "].\n", REQ_Z)
             vals = C.parse_coq(ans[0]) if ans else [None] * len(retry)
             for (c, why), m in zip(retry, vals):
                 fr, hf, b, t = c["obs"]
@@ -520,7 +539,7 @@ def run(ctx):
                     ctx.count("cplx:whole-period-decision-taken-from-observation")
                 c["fallback_in"] = bool(pf)
                 items.append("cplx_case %s %s %d %s %s" % (cb(c["kind"] == "gt"), cb(pf), c["w"], qz(lo_t), qz(hi_t)))
-            files.append(("cplx_%d" % s0, "Eval vm_compute in [\n " + ";\n ".join(items) + "].\n"))
+            files.append((TAG + "cplx_%d" % s0, "Eval vm_compute in [\n " + ";\n ".join(items) + "].\n"))
         res = C.coq_eval_many(ctx, files, REQ_Z)
         cbad = []
         for (name, _), (ans, log), s0 in zip(files, res, range(0, len(cpx_cases), 400)):
@@ -585,7 +604,7 @@ def run(ctx):
                     "Fixpoint badidx (n : nat) (l : list (Z * Q * Q * Q * Q * Z * Q)) : list nat :=\n"
                     "  match l with nil => nil | c :: t => if bad c then n :: badidx (S n) t else badidx (S n) t end.\n"
                     "Eval vm_compute in badidx 0 vcases.\n" % qz(tol))
-            ans, log = C.coq_eval(ctx, "trival", body, REQ_Z.replace("QArith.", "QArith Qabs."))
+            ans, log = C.coq_eval(ctx, TAG + "trival", body, REQ_Z.replace("QArith.", "QArith Qabs."))
             if ans is None:
                 ctx.fail("triangle value comparison did not compile", dict(correspondence="Model.tri_val", log_tail=(log or "")[-1500:]), kind="tie", no_input=True)
             else:
@@ -682,7 +701,7 @@ def run(ctx):
                 goals.sort(key=lambda x: -len(x[1]))
                 shards = [goals[k::nshard] for k in range(nshard)]
                 shards = [sh for sh in shards if sh]
-                files = [("cert_%d" % k, "".join(g for _, g, _ in sh)) for k, sh in enumerate(shards)]
+                files = [(TAG + "cert_%d" % k, "".join(g for _, g, _ in sh)) for k, sh in enumerate(shards)]
                 ctx.log("certifying %d value goals with Interval" % len(goals))
                 res = C.coq_eval_many(ctx, files, REQ_R)
                 for (name, _), (ans, log), sh in zip(files, res, shards):
@@ -691,7 +710,7 @@ def run(ctx):
                         continue
                     found = 0
                     for c, g, what in sh:
-                        a2, l2 = C.coq_eval(ctx, "cert_one", g, REQ_R)
+                        a2, l2 = C.coq_eval(ctx, TAG + "cert_one", g, REQ_R)
                         if a2 is None:
                             value_mismatch.append((c, "%s is not within 1e-9 of the R model (C06/ModelR.v)" % what))
                             found += 1
